@@ -20,25 +20,8 @@ its candidate summary and the summary of `f` mutates only allowed formals, then 
 writes a pre-existing storage outside the allowed formals. -/
 theorem analyse_sound (Sg : List Summary) (Φ : List Fn) (hT : tableOK Sg Sg Φ = true)
     (f : Nat) (fn : Fn) (allowed : List Nat) (hf : Φ[f]? = some fn)
-    (hm : mutsWithin Sg f allowed = true) : Safe Φ fn allowed := by
-  intro P n0 st' hP hex s hs hlt
-  have hTab := tableOK_sound hT
-  obtain ⟨σ, hσ, hfn⟩ := hTab f fn hf
-  simp only [fnOK, Bool.and_eq_true] at hfn
-  have hb0 : Bnd n0 ⟨entry fn.nparams P, n0, [], []⟩ := by
-    refine ⟨Nat.le_refl _, ?_, ?_⟩
-    · intro x t ht
-      simp only [entry] at ht
-      by_cases hx : x < fn.nparams
-      · simp only [hx, if_true] at ht; exact hP x t ht
-      · simp [hx] at ht
-    · intro t ht; simp at ht
-  obtain ⟨_, hr⟩ := sound Sg Φ hTab hex (entry fn.nparams P) n0 (entryA fn.nparams) hb0 (entry_resp _ _ _) hfn.1.1
-  obtain ⟨p, hp1, hp2⟩ := hr.w s hs hlt
-  have hp3 : p ∈ σ.muts := sub_sound hfn.1.2 p hp1
-  unfold mutsWithin at hm
-  rw [hσ] at hm
-  exact ⟨p, sub_sound hm p hp3, hp2⟩
+    (hm : mutsWithin Sg f allowed = true) : Safe Φ fn allowed :=
+  analyse_sound_aux Sg Φ hT f fn allowed hf hm
 
 /-- A function (and everything it calls) without any `write` is safe: special case used for the
 mutation-free part of the package. -/
@@ -49,17 +32,18 @@ theorem no_write_safe (Sg : List Summary) (Φ : List Fn) (hT : tableOK Sg Sg Φ 
 /-- The analysis is not vacuous: it rejects the program that writes its parameter, that program is
 really unsafe, and a program writing a fresh buffer or a clone is accepted and safe. -/
 theorem analysis_discriminates :
-    ¬ Safe [] Examples.writeParam [] ∧ fnOK [] Examples.writeParam ⟨[], []⟩ = false ∧
-    Safe [] Examples.writeClone [] ∧ ¬ Safe [] Examples.writeView [] ∧ ¬ Safe [Examples.kernel] Examples.callsKernel [] :=
+    ¬ Safe Examples.table Examples.writeParam [] ∧ fnOK Examples.sigma Examples.writeParam ⟨[], []⟩ = false ∧
+    Safe Examples.table Examples.writeClone [] ∧ ¬ Safe Examples.table Examples.writeView [] ∧
+    ¬ Safe Examples.table Examples.callsKernel [] :=
   ⟨Examples.writeParam_unsafe, by decide, Examples.writeClone_safe, Examples.writeView_unsafe, Examples.callsKernel_unsafe⟩
 
 /-- D15 as a machine-checked counterexample: the empty-selection branch of `sparse_getitem`
 (`indices = sparse._indices(); indices.resize_(…).zero_()`) writes the caller's sparse tensor. -/
-theorem sparse_getitem_counterexample : ¬ Safe [] Examples.sparseGetitemEmptyBranch [] :=
+theorem sparse_getitem_counterexample : ¬ Safe Examples.table Examples.sparseGetitemEmptyBranch [] :=
   Examples.sparseGetitemEmptyBranch_unsafe
 
 /-- The repaired form of that branch (allocate new tensors) is safe. -/
-theorem sparse_getitem_fixed_safe : Safe [] Examples.sparseGetitemFixedBranch [] :=
+theorem sparse_getitem_fixed_safe : Safe Examples.table Examples.sparseGetitemFixedBranch [] :=
   Examples.sparseGetitemFixedBranch_safe
 
 /-- Every function of the regenerated IR conforms to its regenerated summary (kernel-evaluated). -/
